@@ -147,8 +147,26 @@ class SetInterp:
                 continue
             return l
 
+    def _lookup(self, l):
+        vals = self.__dict__.setdefault("vals", {})
+        if l in vals:
+            return vals[l]
+        ds = self.senv.defs.get(l, [])
+        busy = self.__dict__.setdefault("_busy", set())
+        if vals and len(ds) == 1 and ds[0][0] == "stmt" and l not in busy and l not in self.senv.mut_borrowed:
+            st = self.body.blocks[ds[0][1]]["stmts"][ds[0][2]]
+            if st["rv"]["k"] == "use":
+                busy.add(l)
+                try:
+                    return self.senv.ev.rvalue(st["rv"], self._lookup)
+                finally:
+                    busy.discard(l)
+        return self.senv.local_value(l)
+
     def val(self, op):
-        return self.senv.operand(op)
+        # locals assigned on several paths (an or-pattern binding, a value chosen by a match) are read with the
+        # value the path being interpreted gave them
+        return self.senv.ev.operand(op, self._lookup)
 
     def set_of_operand(self, op):
         r = self.root_local(op)
@@ -201,6 +219,8 @@ class SetInterp:
                 rv = st["rv"]
                 if rv["k"] == "use" and rv["op"]["k"] in ("copy", "move"):
                     src = rv["op"]["place"]
+                    if len(self.senv.defs.get(dst, [])) > 1:
+                        self.__dict__.setdefault("vals", {})[dst] = self.senv.ev.place(src, self._lookup)
                     if not src["p"] and src["l"] in self.sets:
                         self.sets[dst] = self.sets[src["l"]]
                     elif src["p"]:
